@@ -1921,6 +1921,27 @@ func (k *Kernel) handleReplayedHeader(
 
 	h, r := header.Height, proof.Round
 
+	// The replayed header must belong to the chain we are following:
+	// it has to be voted on by the validator set we expect at this height,
+	// and it has to build on the header we have committed at the previous height.
+	// Otherwise anyone could have us adopt a header certified by keys of their own choosing.
+	if !header.ValidatorSet.Equal(s.Voting.ValidatorSet) {
+		return tmelink.ReplayedHeaderValidationError{
+			Err: fmt.Errorf(
+				"replayed header's validator set (pub key hash %x) differs from the expected validator set (pub key hash %x) at height %d",
+				header.ValidatorSet.PubKeyHash, s.Voting.ValidatorSet.PubKeyHash, h,
+			),
+		}
+	}
+	if h > k.initialHeight && !bytes.Equal(header.PrevBlockHash, s.CommittingHeader.Hash) {
+		return tmelink.ReplayedHeaderValidationError{
+			Err: fmt.Errorf(
+				"replayed header's previous block hash (%x) differs from the committed header's hash (%x)",
+				header.PrevBlockHash, s.CommittingHeader.Hash,
+			),
+		}
+	}
+
 	// We might have a valid header.
 	// Confirm the hash first,
 	// under the assumption that it is cheaper to validate the hash than the signatures.
